@@ -16,8 +16,10 @@
       "fix: nft MsgTransferNFT validates the token URI length": a transfer could write a 257-byte
       URI, and [InitGenesis] of the chain's own export then panicked in [ValidateGenesis] (C12);
     - every class creator is a valid address ([InitGenesis] parses it and panics otherwise);
-    - the supply of a class = number of its exported NFTs (what [SaveCollection] rebuilds by
-      minting them one by one).
+    - the supply counter of a class = number of its exported NFTs modulo 2^64 — the counter is a
+      uint64 that the x/nft keeper increments unchecked; [Nft/Proofs.v: r_supply_no_wrap] shows it
+      has not wrapped after fewer than 2^64 steps — which is what [SaveCollection] rebuilds by minting
+      the NFTs one by one.
 
     Order of the lists (store key order in Go) is not part of this view. *)
 From Irismod Require Import Nft.Model Nft.Check Nft.Proofs Nft.Sound.
@@ -135,7 +137,7 @@ Theorem export_wellformed :
     /\ (forall c, In c cs -> NoDup (map fst (snd c)))
     (* every class: id well-formed and not reserved, creator an address, supply = number of its NFTs *)
     /\ (forall c cl ts, In ((c, cl), ts) cs ->
-          0 < c /\ 0 <= c_creator cl /\ total_supply s c = Z.of_nat (length ts))
+          0 < c /\ 0 <= c_creator cl /\ total_supply s c = Z.of_nat (length ts) mod two64)
     (* every NFT: id well-formed, owner an address and the one the owner record and the owner index
        report, URI within the bound *)
     /\ (forall c cl ts t a m, In ((c, cl), ts) cs -> In (t, (a, m)) ts ->
